@@ -1171,10 +1171,18 @@ impl Blockchain {
                     WindingResult::Wind(current_wind_index, wind_failure, wallet_status) => {
                         wallet_update_status |= wallet_status;
 
+                        // wind_failure means the new chain failed and we are winding the
+                        // old chain back on
+                        let (chain_to_wind, chain_to_restore): (&[SaitoHash], &[SaitoHash]) =
+                            if wind_failure {
+                                (old_chain, &[])
+                            } else {
+                                (new_chain, old_chain)
+                            };
                         result = self
                             .wind_chain(
-                                new_chain,
-                                old_chain,
+                                chain_to_wind,
+                                chain_to_restore,
                                 current_wind_index,
                                 wind_failure,
                                 storage,
@@ -1185,14 +1193,18 @@ impl Blockchain {
                     WindingResult::Unwind(
                         current_unwind_index,
                         wind_failure,
-                        old_chain,
+                        chain_to_unwind,
                         wallet_status,
                     ) => {
                         wallet_update_status |= wallet_status;
+                        // after unwinding a partially wound new chain (wind_failure) the
+                        // chain to wind next is the old chain
+                        let next_chain: &[SaitoHash] =
+                            if wind_failure { old_chain } else { new_chain };
                         result = self
                             .unwind_chain(
-                                new_chain,
-                                old_chain.as_slice(),
+                                next_chain,
+                                chain_to_unwind.as_slice(),
                                 current_unwind_index,
                                 wind_failure,
                                 storage,
@@ -1207,17 +1219,26 @@ impl Blockchain {
                 }
             }
         } else if !new_chain.is_empty() {
-            let mut result = WindingResult::Unwind(0, true, old_chain.to_vec(), WALLET_NOT_UPDATED);
+            let mut result =
+                WindingResult::Unwind(0, false, old_chain.to_vec(), WALLET_NOT_UPDATED);
             loop {
                 #[cfg(saito_verif)]
                 crate::core::util::verif::validate_step();
                 match result {
                     WindingResult::Wind(current_wind_index, wind_failure, wallet_status) => {
                         wallet_update_status |= wallet_status;
+                        // wind_failure means the new chain failed and we are winding the
+                        // old chain back on
+                        let (chain_to_wind, chain_to_restore): (&[SaitoHash], &[SaitoHash]) =
+                            if wind_failure {
+                                (old_chain, &[])
+                            } else {
+                                (new_chain, old_chain)
+                            };
                         result = self
                             .wind_chain(
-                                new_chain,
-                                old_chain,
+                                chain_to_wind,
+                                chain_to_restore,
                                 current_wind_index,
                                 wind_failure,
                                 storage,
@@ -1228,14 +1249,18 @@ impl Blockchain {
                     WindingResult::Unwind(
                         current_wind_index,
                         wind_failure,
-                        old_chain,
+                        chain_to_unwind,
                         wallet_status,
                     ) => {
                         wallet_update_status |= wallet_status;
+                        // after unwinding a partially wound new chain (wind_failure) the
+                        // chain to wind next is the old chain
+                        let next_chain: &[SaitoHash] =
+                            if wind_failure { old_chain } else { new_chain };
                         result = self
                             .unwind_chain(
-                                new_chain,
-                                old_chain.as_slice(),
+                                next_chain,
+                                chain_to_unwind.as_slice(),
                                 current_wind_index,
                                 wind_failure,
                                 storage,
@@ -1397,7 +1422,7 @@ impl Blockchain {
                 return WindingResult::FinishWithSuccess(wallet_updated);
             }
 
-            WindingResult::Wind(current_wind_index - 1, false, wallet_updated)
+            WindingResult::Wind(current_wind_index - 1, wind_failure, wallet_updated)
         } else {
             // we have had an error while winding the chain. this requires us to
             // unwind any blocks we have already wound, and rewind any blocks we
@@ -1412,6 +1437,11 @@ impl Blockchain {
                 block.id,
                 block.hash.to_hex()
             );
+            if wind_failure {
+                // we were restoring the old chain and it does not validate any more.
+                // there is nothing further to fall back to.
+                return WindingResult::FinishWithFailure;
+            }
             if current_wind_index == new_chain.len() - 1 {
                 // this is the first block we have tried to add
                 // and so we can just roll out the older chain
@@ -1616,6 +1646,9 @@ impl Blockchain {
             //
             // winding requires starting at the END of the vector and rolling
             // backwards until we have added block #5, etc.
+            if new_chain.is_empty() {
+                return WindingResult::FinishWithFailure;
+            }
             WindingResult::Wind(new_chain.len() - 1, wind_failure, wallet_updated)
         } else {
             // continue unwinding,, which means
